@@ -682,3 +682,61 @@ Definition covered (cp : str * str) : bool :=
   existsb (fun e => str_eqb (e_cls e) (fst cp) && str_eqb (e_name e) (snd cp)) catalogue
   || existsb (fun o => str_eqb (fst o) (fst cp) && str_eqb (snd o) (snd cp)) oracle_only.
 Definition uncovered : list (str * str) := filter (fun cp => negb (covered cp)) settable.
+
+(** ** search for a refused assignment that changes the element (model-level witnesses) *)
+Definition st_le (a b : st) : bool :=
+  forallb (fun kv => match lookup (fst kv) b with
+                     | Some t => str_eqb t (snd kv) && match lookup (fst kv) a with Some t' => str_eqb t' (snd kv) | None => false end
+                     | None => false
+                     end) a.
+Definition st_same (a b : st) : bool :=
+  forallb (fun kv => match lookup (fst kv) a, lookup (fst kv) b with
+                     | Some x, Some y => str_eqb x y
+                     | _, _ => false
+                     end) (a ++ b).
+
+Fixpoint prefixes_from (acc : path) (p : path) : list path :=
+  match p with
+  | [] => []
+  | x :: r => (acc ++ [x]) :: prefixes_from (acc ++ [x]) r
+  end.
+Fixpoint required_paths (p : prog) : list path :=
+  match p with
+  | Done | Raise _ => []
+  | Seq (SRequire q) k => q :: required_paths k
+  | Seq _ k => required_paths k
+  | If _ th el => required_paths th ++ required_paths el
+  end.
+(** the elements a setter dereferences without creating them *)
+Definition base_state (p : prog) : st :=
+  fold_left (fun s q => if present q s then s else put (q, None) [] s)
+            (flat_map (prefixes_from []) (required_paths p)) [].
+
+Definition probe_values : list aval :=
+  [ plain (PInt 1); plain (PInt 5); plain (PInt 100); plain (PInt 914400); plain (PInt 1000000); plain (PFloat (Fin 1 (-1)));
+    plain (PBool true); plain (PStr (s2l "x")); AV TLength (PInt 12700); AV TMember (PInt 1); AV TMember (PInt 2); AV TMember (PInt 3);
+    AV TMember (PInt 4); AV TMember (PInt 5); AV TMember (PInt (-4152)); AV TMember (PStr (s2l "0A1B2C")) ].
+Definition bad_values : list aval :=
+  [ plain (PStr (s2l "abc")); plain (PInt (-7)); plain (PInt 1000000000000000000); plain (POther 0); a_none;
+    plain (PFloat NaN); plain (PInt 987654); plain (PFloat (Fin (-3) (-1))) ].
+
+(** states reached from the base state by one accepted assignment *)
+Definition probe_states (e : entry) : list st :=
+  let s0 := base_state (e_set e) in
+  s0 :: flat_map (fun v => match run (e_set e) v s0 with (s1, Ok _) => [s1] | _ => [] end) probe_values.
+
+Definition nonatomic_on (e : entry) (s : st) (v : aval) : bool :=
+  match run (e_set e) v s with
+  | (s', Err _) => negb (st_same s s')
+  | _ => false
+  end.
+Definition nonatomic_witness (e : entry) : option (st * aval) :=
+  find (fun sv => nonatomic_on e (fst sv) (snd sv))
+       (flat_map (fun s => map (fun v => (s, v)) bad_values) (probe_states e)).
+Definition nonatomic_labels : list str :=
+  map entry_label (filter (fun e => match nonatomic_witness e with Some _ => true | None => false end) catalogue).
+(** the same by Class.name (the signature used for known findings) *)
+Definition entry_cn (e : entry) : str := e_cls e ++ [46%N] ++ e_name e.
+Definition unknown_nonatomic : list str :=
+  filter (fun l => negb (mem_str l known_nonatomic))
+         (map entry_cn (filter (fun e => match nonatomic_witness e with Some _ => true | None => false end) catalogue)).
